@@ -7,6 +7,8 @@ pub mod refsem;
 pub mod pipeline;
 pub mod explore;
 pub mod cli;
+pub mod codec;
+pub mod bcverify;
 pub mod universes;
 pub mod props;
 
